@@ -71,7 +71,22 @@ ASSUMPTIONS = [
     "dask.dataframe is imported through the pyarrow import stub (pandas-backed strings); sync scheduler",
 ]
 BUDGET = {"quick": 60, "thorough": 540}
-FLOORS = {}
+FLOORS = {
+    "quick": {"evaluations": 2400, "distinct_nontrivial": 1700,
+              "counters": {"compared": 1750, "compared:cum": 900, "compared:rolling": 260, "compared:shift": 120,
+                           "compared:diff": 130, "compared:fill": 200, "compared:map_overlap": 120,
+                           "compared_multi_partition": 1450, "inputs_with_empty_partition": 600,
+                           "inputs_with_all_nan_partition": 650, "inputs_with_nan_run_crosses_boundary": 450,
+                           "inputs_with_single_row_partition": 1200},
+              "max_skipped_fraction": 0.35},
+    "thorough": {"evaluations": 14000, "distinct_nontrivial": 10000,
+                 "counters": {"compared": 10000, "compared:cum": 3000, "compared:rolling": 2500, "compared:shift": 1200,
+                              "compared:diff": 1200, "compared:fill": 1800, "compared:map_overlap": 1200,
+                              "compared_multi_partition": 8000, "inputs_with_empty_partition": 2500,
+                              "inputs_with_all_nan_partition": 4000, "inputs_with_nan_run_crosses_boundary": 2500,
+                              "inputs_with_single_row_partition": 7000},
+                 "max_skipped_fraction": 0.35},
+}
 EXHAUSTIVE_SPACE = {
     "quick": "all 128 compositions of an 8-row frame (fixed NaN pattern, from_delayed with divisions) x "
              "{rolling(3).sum, cumsum, cummax, shift(1), shift(-2), diff, ffill(limit=1), bfill}",
